@@ -72,7 +72,7 @@ func CheckTable(d *FileDump, e *ExpTable, srs *SRS) *Mismatch {
 	}
 	for i := range e.Columns {
 		a, b := t.Columns[i], e.Columns[i]
-		b.AutoInc = false // not visible in PRAGMA table_info, not part of the comparison
+		b.AutoInc, b.Default = false, "" // AUTOINCREMENT is not visible in PRAGMA table_info; defaults are not compared
 		if a.Name != b.Name || !strings.EqualFold(a.Type, b.Type) || a.NotNull != b.NotNull || a.PK != b.PK {
 			return mm("schema", "table %q column %d is %+v, source has %+v", e.Name, i, a, b)
 		}
@@ -130,7 +130,7 @@ func CheckTable(d *FileDump, e *ExpTable, srs *SRS) *Mismatch {
 		}
 		for k := range er.Vals {
 			if !SameValue(r.Vals[k], er.Vals[k]) {
-				return mm("row-values", "table %q row %d (%s) column %d: %s, want %s (whole row %v, want %v)", e.Name, i, er.Label, k, r.Vals[k], er.Vals[k], r.Vals, er.Vals)
+				return mm("row-values"+typeFamily(e, k), "table %q row %d (%s) column %d: %s, want %s (whole row %v, want %v)", e.Name, i, er.Label, k, r.Vals[k], er.Vals[k], r.Vals, er.Vals)
 			}
 		}
 		if er.NullGeom {
@@ -224,6 +224,28 @@ func CheckTable(d *FileDump, e *ExpTable, srs *SRS) *Mismatch {
 		return mm("extent", "table %q: recorded extent [%v %v %v %v] although no geometry was written", e.Name, c.MinX.Float64, c.MinY.Float64, c.MaxX.Float64, c.MaxY.Float64)
 	}
 	return nil
+}
+
+// typeFamily names the declared type of the k-th non-geometry column when it is one of
+// the types go-sqlite3 converts on the way (so that such findings have their own class).
+func typeFamily(e *ExpTable, k int) string {
+	i := 0
+	for _, c := range e.Columns {
+		if c.Name == e.GeomCol {
+			continue
+		}
+		if i == k {
+			switch strings.ToUpper(strings.Split(c.Type, "(")[0]) {
+			case "DATE", "DATETIME", "TIMESTAMP":
+				return "/datetime-column"
+			case "BOOLEAN":
+				return "/boolean-column"
+			}
+			return ""
+		}
+		i++
+	}
+	return ""
 }
 
 func nullF(valid bool, v float64) interface{} {
